@@ -265,6 +265,9 @@ func (st *Schema) toIndexColumns(ci []sql.IndexedColumn) []IndexColumn {
 				}
 				c.Collate = collate
 			}
+		} else {
+			// an expression is ordered by the COLLATE given with it
+			c.Collate = col.Collate
 		}
 		cs = append(cs, c)
 	}
